@@ -17,7 +17,8 @@ EXPLANATION = (
     "file_name on its name parameter; the guard is the Ok edge of `?` on its result.  There is no validator in the tree "
     "today: every chain is reported (finding F16, reproduced in findings/server/F16_demo.rs).")
 DECIDED = ["R26a one place builds paths; chain shapes equal the frozen table (WHO + TABLE)",
-           "R26b names are validated before they name files (DOM over handler, action and sink)"]
+           "R26b names are validated before they name files (DOM over handler, action and sink)",
+           "R26c rename / copy never target an existing file (DOM on the existence test of db_file(new_owner, new_db))"]
 UNDECIDED = ["file-system state (symlinks, case-insensitive file systems, pre-existing files)",
              "that a recognised validator rejects exactly the dangerous names (separators, `..`, leading dot, reserved "
              "names `backups`/`audit`, suffix collisions such as `x.bak`): the idiom only establishes that the name is "
@@ -298,7 +299,41 @@ def r26b(ctx):
                "name-introducing sink `%s` is also called from %s" % (sink, sorted(callers - allowed)), "")
 
 
+def r26c(ctx, rule="R26c"):
+    """A database file is never moved or copied ONTO an existing file: in DbPool::rename_db and DbPool::copy_db the step
+    that hands the target path to the storage layer (UserDb::rename via do_rename / Db::copy) is reachable only through
+    the `does not exist` edge of an existence test of that very path, db_file(new_owner, new_db).  (The target may be
+    a file no registered database owns: another database's `.name` recovery log, a left-over of a removed database.)"""
+    fa = ctx.facts
+    for fn in ("rename_db", "copy_db"):
+        b = ctx.anchor(rule, POOL + fn + "::{closure#0}")
+        if not b:
+            continue
+        tgt = [(i, t) for i, t in cfg.calls(b) if cfg.callee(t) == "agdb_server::db_pool::db_file" and len(t["a"]) >= 2 and
+               who(b, t["a"][0]) == (1, (".3",)) and who(b, t["a"][1]) == (1, (".4",))]
+        ok = len(tgt) == 1
+        detail = "target path db_file(new_owner, new_db) not found" if not ok else ""
+        if ok:
+            tl = C24.flow(b, [tgt[0][1]["d"][0]], extra=("::to_string_lossy", "Cow::as_ref", "::as_ref", "::as_path"))
+            tests = [(i, t) for i, t in cfg.calls(b) if (cfg.callee(t) or "") in ("std::path::Path::exists", "std::fs::exists")
+                     and t["a"] and (who(b, t["a"][0]) or (None,))[0] in tl]
+            edges = []
+            for i, t in tests:
+                for sw in cfg.bool_switches(b, C24.flow(b, [t["d"][0]], extra=("Result::map_err",))):
+                    edges.append(sw["false_edge"])
+            uses = [i for i, t in cfg.calls(b) if i not in [x for x, _ in tests] and i != tgt[0][0] and not cfg.is_transparent(cfg.callee(t) or "")
+                    and not (cfg.callee(t) or "").endswith(("::to_string_lossy", "::as_ref", "::deref", "::exists"))
+                    and any((who(b, a) or (None,))[0] in tl for a in t["a"])]
+            ok = bool(tests and edges and uses) and all(cut(b, i, edges) is None for i in uses)
+            detail = "tests %d, uses of the target path %s" % (len(tests), [b.loc(i) for i in uses])
+        ctx.ob(rule, "%s:target-must-not-exist" % fn, ok,
+               "the target path is used only after `exists()` was false (%s)" % detail if ok else
+               "DbPool::%s can hand the target path to the storage layer without having found it absent (%s): an existing "
+               "file (another database's recovery log / a left-over file) is silently replaced" % (fn, detail), b.where)
+
+
 def run(ctx):
     r26a(ctx)
     r26b(ctx)
+    r26c(ctx)
     return 0
